@@ -172,10 +172,34 @@ def run(ctx, rep):
     BT = prog.find1(r"^rustic_core::archiver::tree_archiver::TreeArchiver::<'a, BE, I>::backup_tree$")
     # early return (dirs_unmodified) is control-dependent on an id comparison
     unmod = [bi for bi, blk in enumerate(BT.blocks) for s in blk["s"] if s[0] == "=" and place_has_field(s[1], "dirs_unmodified")]
-    okd = False
-    for bi in unmod:
-        for (sw, succ) in C.transitive_control_deps(BT, bi):
-            e = flow.expr_of(BT, BT.term(sw)["discr"])
-            if e[0] == "call" and re.search(r"PartialEq(<.*>)?>::eq$|PartialEq::eq$", e[1]) and "serialize" in repr(e):
-                okd = True
+    # evaluated: with the comparison `fresh id == parent id` answering false (and bool locals such as a `matches!(..)` result
+    # tracked), the "unchanged" exit is unreachable; with it answering true it is reachable
+    import pathsens
+
+    def id_cmp(val):
+        def ev(body, e):
+            neg = False
+            while isinstance(e, tuple) and e and e[0] == "un" and e[1] == "Not":
+                neg = not neg
+                e = e[2]
+            if isinstance(e, tuple) and e and e[0] == "call" and re.search(r"PartialEq(<.*>)?(>)?::(eq|ne)$", e[1]) and "serialize" in repr(e):
+                v = val if e[1].endswith("::eq") else (not val)
+                return v != neg
+            return None
+
+        def fz(body, bb):
+            t = body.term(bb)
+            if t["k"] != "switch" or t["discr_ty"] != "bool":
+                return None
+            v = ev(body, flow.expr_of(body, t["discr"], bb))
+            if v is None:
+                return None
+            zero = [x for vv, x in t["targets"] if vv == "0"]
+            return (t["otherwise"] if v else zero[0]) if zero else None
+        return fz, ev
+    fz0, ev0 = id_cmp(False)
+    fz1, ev1 = id_cmp(True)
+    r_diff = pathsens.reachable_under(BT, fz0, eval_expr=ev0)
+    r_same = pathsens.reachable_under(BT, fz1, eval_expr=ev1)
+    okd = bool(unmod) and not any(bi in r_diff for bi in unmod) and any(bi in r_same for bi in unmod)
     rep.check("C07.d", "unchanged-tree", bool(unmod) and okd, where=BT.loc(), what="a tree counts as unchanged (nothing stored) only if the id of the freshly serialized tree equals the parent's tree id")
